@@ -51,6 +51,8 @@ package ledgerstore
 
 //@ func (*LedgerStoreImp).GetCurrentBlockHeight
 //@   inline
+//@ func (*LedgerStoreImp).GetCurrentBlockHash
+//@   inline
 
 //@ func (*LedgerStoreImp).tryGetSavingBlockLock
 //@   trusted   -- channel select on the saving-block semaphore: outside the subset; touches no verified state
@@ -93,6 +95,9 @@ package ledgerstore
 //@   set before "this.setCurrentBlock(blockHeight, blockHash)" : curSet := true
 //@   -- nothing is written to any store unless the block root matches the accumulator root
 //@   ensures[c13-root] stored ==> rootOK
+//@   -- ... and unless the block names the current tip as its predecessor (the parent found by verifyHeader is only
+//@   -- some stored or cached header one lower; here the block is about to become the tip's successor)
+//@   ensures[c13-prev-is-tip] stored ==> old(block.Header.Height) == 0 || old(block.Header.PrevBlockHash) == old(this.currBlockHash)
 //@   -- the current-block pointer moves only after all three commits succeeded, and success means it moved
 //@   ensures[c13-commit-order] curSet ==> committed && stored
 //@   ensures[c13-success] err == nil ==> curSet
